@@ -14,6 +14,7 @@ from .. import treecheck
 from ..treeprop import DROP_ASC, DROP_DESC, HOLD_ASC, HOLD_DESC, TreeProp
 
 QUICK = [
+    ("S4", DROP_ASC, 2, "RETYPE"),
     ("S2", DROP_ASC, 1, "FULLND"),
     ("S4", HOLD_DESC, 1, "FULLND"),
     ("S1", DROP_ASC, 2, "FULLND"),
@@ -23,6 +24,8 @@ QUICK = [
     ("S1", DROP_ASC, 3, "IDGC"),
 ]
 THOROUGH = [
+    ("S4", DROP_ASC, 3, "RETYPE"),
+    ("S4", HOLD_DESC, 3, "RETYPE"),
     ("S2", DROP_ASC, 2, "FULLND"),
     ("S2", HOLD_DESC, 2, "FULLND"),
     ("S4", DROP_DESC, 2, "FULLND"),
